@@ -128,6 +128,8 @@ class Interp:
         self.module = module
         self.env: dict[SSAValue, Any] = {}
         self.trace: list = []  # events appended by handlers
+        self.post_hook = None  # post_hook(interp, op) after every completed op
+        self.block_hook = None  # block_hook(interp, block) after block arguments are bound
 
     # ---- environment
     def get(self, v: SSAValue):
@@ -168,10 +170,14 @@ class Interp:
         for op in block.ops:
             for r in op.results:
                 self.env.pop(r, None)
+        if self.block_hook:
+            self.block_hook(self, block)
         for op in block.ops:
             out = self.exec_op(op)
             if out is not None:
                 return out
+            if self.post_hook:
+                self.post_hook(self, op)
         raise InterpError("block without terminator")
 
     def exec_op(self, op: Operation):
